@@ -1477,8 +1477,10 @@ def save_scenes_image_sync(
             two_pools = True
             pool = None
             break
-    if pool is None:
-        pool = []
+    # Write into a copy (same indices): strings added for other entries must not end up in the
+    # pool owned by the unparsed entries, which outlives this call.
+    shared_pool = pool
+    pool = [] if pool is None else pool.copy()
 
     add_to_pool = binformat.find_or_insert(pool, lambda x: x)
     deferred = binformat.DeferredWrites(file)
@@ -1491,7 +1493,7 @@ def save_scenes_image_sync(
         if not two_pools and isinstance(entry._data, tuple):
             data, entry_pool = entry._data
             entry_to_data[entry] = data
-            assert entry_pool is pool
+            assert entry_pool is shared_pool
         else:
             # Parse if required, then export.
             entry_to_data[entry] = entry.data.export_binary(add_to_pool)
